@@ -11,4 +11,4 @@ Extraction "model.ml" vio_kit factorSpace toIndex toFactors factorSpacePartial t
   graph_new graph_push getIds getId getIdP getIdsRev getSize getPartialSize getPartialSizeA
   getTransitionProbability getTransitionProbabilityP backProject
   toFactorsOut getValue2D getValueW2D scaleW2D scale2D plusEqualSubset2D plusEqual2D plusEqualFM
-  jal_new jal_step flat_exp ql_step qzero coop_norm coop_step bp_step flattened_reward fbandit_reward sampleSRs_rewards expectedReward sparse_step rule_matches.
+  jal_new jal_step flat_exp ql_step qzero coop_norm coop_step bp_step flattened_reward fbandit_reward sampleSRs_rewards expectedReward sparse_step rule_matches tables_are_probabilities row_is_probability.
